@@ -110,6 +110,14 @@ func c01Sequential(r *core.Run, idx int, rng *rand.Rand) {
 		sc.U.Custom = append(sc.U.Custom, sim.Custom{Name: "groups", Format: basicFormat, Values: vals})
 		sc.S.Binding = spsim.BindRedirect
 	}
+	if idx%16 == 9 {
+		// a stored request whose binding is none the callback can deliver through (written by another version, by hand,
+		// by an SSO endpoint of another deployment): whatever is answered, a non-Success reply carries no user data
+		sc.S.Binding = []string{spsim.BindArtifact, "urn:oasis:names:tc:SAML:2.0:bindings:HTTP-POST-SimpleSign", "urn:oasis:names:tc:SAML:2.0:bindings:SOAP", "", "HTTP-POST", " " + spsim.BindPost}[rng.Intn(6)]
+		if rng.Intn(3) == 0 {
+			sc.S.ACS = ""
+		}
+	}
 	e := sc.build()
 	// a second, completed session of another user lives in the same world
 	other := randScenario(rng, canary+"o", false)
